@@ -27,6 +27,9 @@ FN2 = ["atan2"]
 FN_IDS = {n: i for i, n in enumerate(FN1 + FN2)}
 
 
+_SCRATCH = {}
+
+
 class ShapeError(Exception):
     pass
 
@@ -352,8 +355,18 @@ def build_programs(spec, symbolic=True, free=None):
     return progs
 
 
+def fresh_caches():
+    """Every generated case starts like a fresh interpreter as far as sympy's caches are concerned: parameter
+    symbols of *earlier cases* must not leak into this one (they do otherwise: findings cache:*); sharing
+    *within* a case is left exactly as the library does it."""
+    import sympy.core.cache as sc
+    sc.clear_cache()
+    _SCRATCH.clear()
+
+
 def run_spec(spec, symbolic=True, seed=1234):
     """Run on a fresh engine; returns dict(state=(means,cov) | fock dm, samples=..., error=kind-or-None)."""
+    fresh_caches()
     backend = spec.get("backend", "gaussian")
     bo = {"cutoff_dim": spec.get("cutoff", 5)} if backend == "fock" else {}
     try:
@@ -604,6 +617,7 @@ def impl_expr_case(case, tree=None):
     """Build the expression in a fresh Program with the case's environment and evaluate it.
     Returns dict(outcome=('ok', v) | (errkind,), deps=[...], op_deps=[...], atoms=set)."""
     tree = case["tree"] if tree is None else tree
+    fresh_caches()
     prog = sf.Program(NMODES)
     names = set(case["free"]) | {a for k, a in atoms(tree) if k == "free"}
     for n in sorted(names):
@@ -888,6 +902,22 @@ SYM_PREPS = {"Coherent": (1, ["r", "a"]), "Squeezed": (1, ["r", "a"]), "Displace
 GATES_WITH_H = ("Dgate", "Xgate", "Zgate", "Sgate", "Rgate", "Pgate", "BSgate", "MZgate", "sMZgate", "S2gate", "CXgate", "CZgate")
 
 
+def survives(t):
+    """True iff sympy keeps every atom of the tree (no a - a, 0*a, a**0): otherwise an unbound atom
+    legitimately cannot raise and a 'use' may become a plain number."""
+    ats = set(atoms(t))
+    if not ats:
+        return True
+    prog = _SCRATCH.get("p")
+    if prog is None:
+        prog = _SCRATCH["p"] = sf.Program(NMODES)
+    try:
+        e = build_expr(t, prog.params, lambda k: prog.register[k].par)
+    except Exception:
+        return False
+    return impl_atoms(e) == ats
+
+
 def gen_param_tree(rng, kind, pool, free, store):
     """A tree whose value (under free/store) respects the domain of the parameter kind."""
     for _ in range(30):
@@ -901,6 +931,8 @@ def gen_param_tree(rng, kind, pool, free, store):
             t = ["pow", t, 2]
         elif kind == "r":
             t = ["mul", 0.6, ["fn", "tanh", t]] if isinstance(t, list) else max(-0.6, min(0.6, t))
+        if not survives(t):
+            continue
         try:
             v = tree_eval(t, free, store)
         except (RefParamError, ShapeError):
@@ -1081,10 +1113,14 @@ def prog_predicate(spec):
             return ("cache:symbol-shared-between-programs", what + "; with parameter symbols that are not shared between Program objects the two agree")
     if spec.get("precompile") and f["uses_measured"] and a["error"] == "AttributeError":
         return ("compile:compiled-program-with-measured-parameter", what + " [a compiled Program holding a MeasuredParameter is compiled again by the engine: _linked_copy deep-copies Program.source]")
+    if spec.get("optimize") and a["error"] == "TypeError" and "Relational" in a.get("detail", ""):
+        return ("optimize:channel-merge-symbolic", what + " [optimize=True: Channel.merge calls np.allclose on a symbolic product of transmissivities]")
     if f["cross_segment_use"]:
         return ("run:cross-segment-measured-value", what + " [a later segment uses a value measured in an earlier segment]")
-    if spec.get("optimize") and f["optimize_measured_pair"]:
-        return ("optimize:measured-parameter-gates-merged", what + " [optimize=True, two adjacent gates of one family on one mode with a measured parameter]")
+    if spec.get("optimize") and f["uses_measured"]:
+        noopt = dict(spec, optimize=False)
+        if same_result(run_spec(noopt, True), b):
+            return ("optimize:measured-parameter-gates-merged", what + " [optimize=True and gates with measured parameters; without optimize the symbolic program agrees with the substituted one]")
     kind = a["error"] or ("state" if not b["error"] else "no-error")
     return ("program:" + kind, what)
 
@@ -1106,7 +1142,7 @@ def search_corpus(ctx):
             bad = prog_predicate(d["spec"])
         elif d.get("check") == "expr":
             bad = expr_predicate(d["case"])
-        elif d.get("check") in ("cross", "decomp", "history"):
+        elif d.get("check") in ("cross", "decomp", "history", "stale"):
             fn = globals().get(d["check"] + "_predicate")
             bad = fn(d) if fn else None
         ctx.case({"kind": "corpus", "file": os.path.basename(path)}, nontrivial=True, bucket="corpus")
@@ -1194,7 +1230,7 @@ def gen_history(rng):
                 t = gen_arith_tree(rng, rng.randint(0, 2), pool)
                 if not atoms(t):
                     t = ["add", t, ["meas", rng.choice(ks)]] if ks else t
-                if not atoms(t):
+                if not atoms(t) or not survives(t):
                     continue
                 seg.append(["use", t, rng.randrange(n)])
         segs.append(seg)
@@ -1237,6 +1273,7 @@ def impl_history(h):
 
     ops.par_evaluate = spy
     err = None
+    fresh_caches()
     try:
         eng = sf.Engine("gaussian")
         progs = []
@@ -1354,3 +1391,136 @@ def replay_history(ctx, d):
     pb = history_predicate(h)
     print("predicate:", pb)
     return pb is not None
+
+
+# ---------------------------------------------------------------------------------------
+# search S3: parameters of one Program must not be affected by other Program objects
+#
+# cross = {"kind": "free" | "meas", "progs": [{"how": "bound"|"default"|"unbound", "v": x, "scale": c} | {"sel": v}], "runs": [i, ...]}
+
+def gen_cross(rng):
+    kind = rng.choice(["free", "free", "meas"])
+    k = rng.choice([2, 2, 3])
+    if kind == "free":
+        progs = [{"how": rng.choice(["bound", "bound", "default", "unbound"]), "v": rng.choice([0.25, -0.5, 0.75, 1.25, -1.0]),
+                  "scale": rng.choice([1.0, 2.0, -0.5])} for _ in range(k)]
+    else:
+        progs = [{"sel": rng.choice([0.3, -0.8, 0.55, 1.1])} for _ in range(k)]
+    runs = [rng.randrange(k) for _ in range(rng.randint(k, k + 2))]
+    return {"check": "cross", "kind": kind, "progs": progs, "runs": runs, "order": rng.choice(["build-all-first", "build-all-first", "build-when-run"])}
+
+
+def run_cross(d):
+    """Returns per run ('ok', x-displacement of the observed mode) | (error kind,)."""
+    fresh_caches()
+    built = {}
+
+    def build(i):
+        spec = d["progs"][i]
+        if d["kind"] == "free":
+            p = sf.Program(1)
+            with p.context as q:
+                ops.Xgate(spec["scale"] * p.params("a")) | q[0]
+            if spec["how"] == "default":
+                p.params("a").default = spec["v"]
+        else:
+            p = sf.Program(2)
+            with p.context as q:
+                ops.MeasureHomodyne(0.0, select=spec["sel"]) | q[0]
+                ops.Xgate(q[0].par) | q[1]
+        return p
+
+    if d["order"] == "build-all-first":
+        for i in range(len(d["progs"])):
+            built[i] = build(i)
+    out = []
+    for i in d["runs"]:
+        if i not in built:
+            built[i] = build(i)
+        spec = d["progs"][i]
+        args = {"a": spec["v"]} if d["kind"] == "free" and spec["how"] == "bound" else {}
+        try:
+            r = sf.Engine("gaussian").run(built[i], args=args)
+            m = r.state.means()
+            out.append(("ok", float(m[0] if d["kind"] == "free" else m[1])))
+        except sfpar.ParameterError:
+            out.append(("ParameterError",))
+        except Exception as e:
+            out.append((type(e).__name__,))
+    return out
+
+
+def cross_expected(d):
+    out = []
+    for i in d["runs"]:
+        spec = d["progs"][i]
+        if d["kind"] == "free":
+            out.append(("ParameterError",) if spec["how"] == "unbound" else ("ok", spec["scale"] * spec["v"]))
+        else:
+            out.append(("ok", spec["sel"]))
+    return out
+
+
+def _same_obs(a, b):
+    return len(a) == len(b) and all(x[0] == y[0] and (x[0] != "ok" or abs(x[1] - y[1]) < 1e-7) for x, y in zip(a, b))
+
+
+def cross_predicate(d):
+    got, want = run_cross(d), cross_expected(d)
+    if _same_obs(got, want):
+        return None
+    what = "runs %r of %d programs each owning a parameter of the same name: observed %r, each program on its own gives %r" % (d["runs"], len(d["progs"]), got, want)
+    with _unshared_symbols():
+        iso = run_cross(d)
+    if _same_obs(iso, want):
+        return ("cache:symbol-shared-between-programs", what + "; with parameter symbols that are not shared between Program objects the programs behave as on their own")
+    return ("cross:" + d["kind"], what)
+
+
+def stale_predicate(d):
+    """One program run with a = first; unrelated sympy symbols are created; a NEW program with a = second."""
+    def run(val):
+        p = sf.Program(1)
+        with p.context as q:
+            ops.Dgate(2 * p.params(d["name"]), 0.0) | q[0]
+        return float(sf.Engine("gaussian").run(p, args={d["name"]: val}).state.means()[0])
+    import sympy
+    fresh_caches()
+    r1 = run(d["first"])
+    for i in range(d["fill"]):
+        sympy.Symbol("unrelated%d" % i)
+    r2 = run(d["second"])
+    want = 2 * 2 * d["second"]   # x = 2 * |alpha| for hbar = 2
+    if abs(r2 - want) < 1e-7:
+        return None
+    return ("cache:stale-symbol-after-eviction", "a new Program with %s=%r computes with %s=%r of an earlier, finished Program (mean x %r instead of %r) after %d unrelated sympy symbols were created"
+            % (d["name"], d["second"], d["name"], d["first"], r2, want, d["fill"]))
+
+
+def search_cross(ctx):
+    rng = ctx.rng
+    for _ in range(ctx.budget(40, 400)):
+        d = gen_cross(rng)
+        bad = cross_predicate(d)
+        distinct = len({(p.get("v"), p.get("sel"), p.get("how")) for p in d["progs"]}) > 1
+        ctx.case(d, nontrivial=distinct, bucket="cross-" + d["kind"])
+        if bad:
+            ctx.counterexample(bad[0], bad[1], d)
+    d = {"check": "stale", "name": rng.choice(NAMES), "first": rng.choice([0.3, 0.45]), "second": rng.choice([0.7, -0.2]), "fill": rng.choice([1100, 1500])}
+    bad = stale_predicate(d)
+    ctx.case(d, nontrivial=True, bucket="stale")
+    if bad:
+        ctx.counterexample(bad[0], bad[1], d)
+
+
+def replay_cross(ctx, d):
+    print("observed:", run_cross(d), " each on its own:", cross_expected(d))
+    bad = cross_predicate(d)
+    print("predicate:", bad)
+    return bad is not None
+
+
+def replay_stale(ctx, d):
+    bad = stale_predicate(d)
+    print("predicate:", bad)
+    return bad is not None
